@@ -134,6 +134,12 @@ pub trait Prop {
     fn sanity(&self, _stats: &Stats, _tier: Tier) -> Vec<String> {
         vec![]
     }
+    /// Whether a worker death must be reproduced by the same run executed as the FIRST thing of a
+    /// fresh process before it counts as a violation (worlds in which state of the simulator, not of
+    /// a real process, carries over from one run to the next inside a worker).
+    fn abort_needs_fresh_confirmation(&self) -> bool {
+        false
+    }
     /// Upper bound on worker processes (process creation does not scale in this sandbox).
     fn max_workers(&self) -> Option<usize> {
         None
